@@ -1,15 +1,16 @@
-/- Programs that never create codes or refresh tokens (`calm`): error paths, revocation, introspection. -/
+/- Programs that never issue a guarded call (`calm`): error paths, revocation, introspection. -/
 import Fosite.Proofs.Safe
 import Fosite.Model.Step
 namespace Fosite.Model
 
-def Guardless (c : Call) : Prop := (∀ r, c ≠ .createCode r) ∧ (∀ a r, c ≠ .createRefresh a r)
+/-- the call is none of `createCode` / `createRefresh` / `createDevice` / `createPAR` -/
+def Guardless (c : Call) : Prop := c.guarded = false
 
 theorem calm_ret {α} (a : α) : calm (Prog.ret a) := trivial
 theorem calm_pure {α} (a : α) : calm (pure a : Prog α) := trivial
 theorem calm_pbind {α β} (p : Prog α) (f : α → Prog β) (hp : calm p) (hf : ∀ a, calm (f a)) : calm (p >>= f) :=
   calm_bind p f hp hf
-theorem calm_call' (c : Call) (h : Guardless c) : calm (call c) := calm_call c h.1 h.2
+theorem calm_call' (c : Call) (h : Guardless c) : calm (call c) := calm_call c h
 theorem calm_retErr (e : Err) : calm (retErr e) := trivial
 
 /-- calmness of handler programs -/
@@ -32,17 +33,17 @@ theorem calmH_guard (c : Bool) (e : Err) : calmH (HP.guard c e) := by
 theorem calmH_lift {α} (p : Prog α) (h : calm p) : calmH (HP.lift p) := calm_bind p _ h (fun _ => trivial)
 theorem calmH_callH (c : Call) (h : Guardless c) : calmH (callH c) := calmH_lift _ (calm_call' c h)
 theorem calmH_expectReq (c : Call) (other) (h : Guardless c) (ho : ∀ r, calm (other r)) : calmH (expectReq c other) := by
-  refine ⟨h.1, h.2, fun res => ?_⟩
+  refine ⟨h, fun res => ?_⟩
   cases res <;> first | trivial | exact calmH_failWith _ (ho _)
 theorem calmH_expectNat (c : Call) (other) (h : Guardless c) (ho : ∀ r, calm (other r)) : calmH (expectNat c other) := by
-  refine ⟨h.1, h.2, fun res => ?_⟩
+  refine ⟨h, fun res => ?_⟩
   cases res <;> first | trivial | exact calmH_failWith _ (ho _)
 theorem calmH_expectOk (c : Call) (other) (h : Guardless c) (ho : ∀ e, calm (other e)) : calmH (expectOk c other) := by
-  refine ⟨h.1, h.2, fun res => ?_⟩
+  refine ⟨h, fun res => ?_⟩
   show calm (match res.errKind with | none => _ | some e => _)
   cases res.errKind <;> first | trivial | exact calmH_failWith _ (ho _)
 theorem calmH_expectClient (c : Call) (e) (h : Guardless c) : calmH (expectClient c e) := by
-  refine ⟨h.1, h.2, fun res => ?_⟩
+  refine ⟨h, fun res => ?_⟩
   cases res <;> trivial
 theorem calmH_optErr (o : Option Err) : calmH (optErr o) := by cases o <;> trivial
 
@@ -51,7 +52,7 @@ theorem calm_run (x : HP Out) (h : calmH x) : calm x.run := by
   apply calm_bind _ _ h
   intro r; cases r <;> trivial
 
-macro "guardless" : tactic => `(tactic| (constructor <;> (intros; intro h; cases h)))
+macro "guardless" : tactic => `(tactic| (show Call.guarded _ = false; rfl))
 
 /-! ### the error-path programs -/
 
